@@ -294,6 +294,8 @@ class HistoryRun(object):
     d = ed.diff_snapshots(before, now)
     extra = {"fault": fault} if fault else None
     cause = classify_failed(rec, fault, doc) or (NUMERIC_NORMALISED_SIG if d and numeric_only(d) else None)
+    if cause is None and d and modified_formula_column_only(rec, d, schema_before):
+      cause = MODIFY_FORMULA_STALE_SIG
     tag = (" (injected fault at %s)" % fault[1]) if fault else ""
     if d:
       self._find("C04", (cause or classify_diff("failed-bundle", d[0], rec) + tag), "; ".join(d[:3]), rec, extra)
@@ -371,6 +373,27 @@ def numeric_only(diffs):
       return False
     va, vb = _numval(a), _numval(b)
     if va is None or vb is None or va != vb:
+      return False
+  return True
+
+
+MODIFY_FORMULA_STALE_SIG = ("rollback after ModifyColumn of a formula column: the user action brings the column up to date "
+                            "with the bundle's data before the failing step, and the cells keep those values after the "
+                            "rollback until the next calculation")
+
+
+def modified_formula_column_only(rec, diffs, schema_before):
+  """Every difference is a cell of a FORMULA column that a ModifyColumn of the rejected bundle names."""
+  import re
+  named = set((ua[1], ua[2]) for ua in rec["actions"] if ua[0] == "ModifyColumn" and len(ua) >= 3)
+  if not named:
+    return False
+  for d in diffs:
+    m = re.match(r"cell (\w+)\[\d+\]\.(\S+): ", d)
+    if not m or (m.group(1), m.group(2)) not in named:
+      return False
+    info = (schema_before or {}).get(m.group(1), {}).get(m.group(2))
+    if not info or not info[1]:
       return False
   return True
 
